@@ -13,6 +13,7 @@ Correspondence:
    nsga2Run / epsMoeaRun from the initial vectors.  Vectors and costs travel as exact rationals.
 """
 import contextlib
+import collections
 import fractions
 import math
 import os
@@ -141,6 +142,44 @@ def scripted_generate(ctx, rng, N, pairs):
     return [list(o.vector) for o in offs]
 
 
+def removed_design(before, after, x, key):
+    """The design that left the population in this acceptance step, judged by designs and not by positions or object
+    identity (None: nobody left / the sizes do not fit - the model's answer then differs anyway)."""
+    kb = collections.Counter(key(i) for i in before)
+    ka = collections.Counter(key(i) for i in after)
+    if ka[key(x)] > 0:
+        ka[key(x)] -= 1
+    diff = list((kb - ka).elements())
+    return diff[0] if len(diff) == 1 and len(before) == len(after) else None
+
+
+def picks_for(order, flags, gone, key):
+    """Oracle picks (pick1 into the list of dominated members, pick2 into the population) under which the model's
+    popAccept lets the design `gone` leave `order`; how the implementation draws its random member is not observed.
+    If no pick can explain the step (a member left that the rule does not allow to leave) the picks stay (0, 0) and the
+    model's answer differs from what was observed."""
+    if gone is None:
+        return 0, 0
+    cands = [i for i, o in enumerate(order) if key(o) == gone]
+    dom = [i for i, f in enumerate(flags) if f == 1]
+    if dom:
+        hit = [c for c in cands if c in dom]
+        return (dom.index(hit[0]) if hit else 0), 0
+    return 0, (cands[0] if cands else 0)
+
+
+def model_accept(order, flags, x, p1, p2, key):
+    """python mirror of Runs.popAccept (only used to carry the model's list order from step to step)"""
+    dom = [i for i, f in enumerate(flags) if f == 1]
+    if dom:
+        return order[:dom[p1 % len(dom)]] + order[dom[p1 % len(dom)] + 1:] + [x]
+    if 2 in flags or not order:
+        return list(order)
+    v = key(order[p2 % len(order)])
+    j = next(i for i, o in enumerate(order) if key(o) == v)
+    return order[:j] + order[j + 1:] + [x]
+
+
 def accept_case(ctx, rng, n, m):
     """pop_acceptance on a random population; returns (request line, observed result vectors)."""
     from artap.individual import Individual
@@ -158,23 +197,19 @@ def accept_case(ctx, rng, n, m):
     x.costs_signed = [rng.choice(pool) for _ in range(m)] + [rng.choice([0, 0, 0, 1])]
     flags = [sel.dominance.compare(x.costs_signed, i.costs_signed) for i in pop]
     before = list(pop)
-    picks = {"p1": 0, "p2": 0}
     real_choice = random.choice
 
     def choice(seq):
-        c = seq[rng.randrange(len(seq))]
-        if seq and isinstance(seq[0], int):
-            picks["p1"] = list(seq).index(c)
-        else:
-            picks["p2"] = [id(o) for o in seq].index(id(c))
-        return c
+        return seq[rng.randrange(len(seq))]
     random.choice = choice
     try:
         sel.pop_acceptance(pop, x)
     finally:
         random.choice = real_choice
     enc = lambda ind: [int(v) for v in ind.vector]
-    line = "c09.accept %s|%s|%s|%d,%d" % (mat([enc(i) for i in before]), vec(flags), vec(enc(x)), picks["p1"], picks["p2"])
+    key = lambda ind: tuple(enc(ind))
+    p1, p2 = picks_for(before, flags, removed_design(before, pop, x, key), key)
+    line = "c09.accept %s|%s|%s|%d,%d" % (mat([enc(i) for i in before]), vec(flags), vec(enc(x)), p1, p2)
     return line, [enc(i) for i in pop], flags
 
 
@@ -195,22 +230,10 @@ def accept_steps_in_run(ctx, rng, N, G, seed):
         before = list(individuals)
         flags = [spec_pareto(individual.costs_signed[:-1], i.costs_signed[:-1], individual.costs_signed[-1], i.costs_signed[-1])
                  for i in before]
-        picks = {"p1": 0, "p2": 0}
-
-        def choice(seq):
-            c = real_choice(seq)
-            if seq and isinstance(seq[0], int):
-                picks["p1"] = list(seq).index(c)
-            else:
-                picks["p2"] = [id(o) for o in seq].index(id(c))
-            return c
-        random.choice = choice
-        try:
-            orig(self, individuals, individual)
-        finally:
-            random.choice = real_choice
-        steps.append(("c09.accept %s|%s|%s|%d,%d" % (mat([enc(i) for i in before]), vec(flags), vec(enc(individual)),
-                                                      picks["p1"], picks["p2"]),
+        orig(self, individuals, individual)
+        key = lambda ind: tuple(enc(ind))
+        p1, p2 = picks_for(before, flags, removed_design(before, list(individuals), individual, key), key)
+        steps.append(("c09.accept %s|%s|%s|%d,%d" % (mat([enc(i) for i in before]), vec(flags), vec(enc(individual)), p1, p2),
                       [enc(i) for i in individuals], flags,
                       {"population_costs": [list(map(float, i.costs_signed[:-1])) for i in before],
                        "offspring_costs": list(map(float, individual.costs_signed[:-1]))}))
@@ -327,21 +350,9 @@ def record_run(cfg):
         return offs
 
     def accept(self, individuals, individual):
-        picks = [0, 0]
-
-        def choice(seq):
-            c = real_choice(seq)
-            if seq and isinstance(seq[0], int):
-                picks[0] = list(seq).index(c)
-            else:
-                picks[1] = [id(o) for o in seq].index(id(c))
-            return c
-        random.choice = choice
-        try:
-            orig_accept(self, individuals, individual)
-        finally:
-            random.choice = real_choice
-        accepts.append((individual, picks))
+        before = list(individuals)
+        orig_accept(self, individuals, individual)
+        accepts.append((individual, before, list(individuals)))
         popref["pop"] = individuals
 
     ga.GeneticAlgorithm.generate = generate
@@ -471,6 +482,18 @@ def worst_key_order(rr, it, pos, fronts, crowds):
     return pos + sorted(j for _, j in worst.values())
 
 
+def step_has_ties(rec):
+    """Two members of the merged population share a value in some objective: crowding distances (and therefore the
+    choice among equally ranked candidates) then depend on the order in which the population is held - which the
+    property leaves open (C03 claims the interior formula only for fronts without tied objective values)."""
+    members = list(rec["offspring"]) + list(rec["parents"])
+    cols = {}
+    for m in members:
+        for j, c in enumerate(m.costs_signed[:-1]):
+            cols.setdefault(j, []).append(float(c))
+    return any(len(set(v)) < len(v) for v in cols.values())
+
+
 def check_step_answer(rr, it, ans, pos, surv, final):
     """Compare one replayed iteration with the recorded one.  Returns None, a failure (key, what), or
     ("retry", order) when the set() oracle has to be rebuilt from the model's keys."""
@@ -488,7 +511,7 @@ def check_step_answer(rr, it, ans, pos, surv, final):
     okc, calls = int(f[3]), int(f[4])
     offv = f[5].split(";") if f[5] else []
     real_off = [rvec(o.vector) for o in rec["offspring"]]
-    if offv != real_off:
+    if sorted(offv) != sorted(real_off):      # the order of the offspring list is not part of the property
         return ("step-offspring", head + "generate + evaluation left the offspring vectors %r, the model (Runs.generate on the "
                 "recorded children, then the evaluator model) gives %r" % ([list(o.vector) for o in rec["offspring"]], offv))
     end = gens[it + 1]["log_pos"] if it + 1 < len(gens) else len(p.calls)
@@ -505,6 +528,10 @@ def check_step_answer(rr, it, ans, pos, surv, final):
         mk = sorted((fronts[j], -crowds[j]) for j in r if j < nmerged)
         if len(rk) == len(mk) and all(a[0] == b[0] and close(a[1], b[1]) for a, b in zip(rk, mk)):
             return ("near-tie", None)
+        if step_has_ties(rec) and len(rk) == len(mk) and [a[0] for a in rk] == [b[0] for b in mk]:
+            # tied objective values: which of the equally ranked candidates survive is not fixed by the property;
+            # rank-first (same multiset of front numbers as the model's survivors) is what can be demanded
+            return ("tie-break", None)
         mv = [list(rec["offspring"][j].vector) if j < len(rec["offspring"]) else list(rec["parents"][j - len(rec["offspring"])].vector)
               for j in r if j < nmerged]
         return ("step-survivors", head + "generation %d was recorded as %r (merged positions %r, keys (front, -crowding) %r); "
@@ -514,7 +541,7 @@ def check_step_answer(rr, it, ans, pos, surv, final):
         if sv.features["front_number"] != fronts[j]:
             return ("step-front", head + "survivor %r carries front number %r, the model's sorting of the merged population "
                     "gives %d" % (list(sv.vector), sv.features["front_number"], fronts[j]))
-        if not close(float(sv.features["crowding_distance"]), crowds[j]):
+        if not close(float(sv.features["crowding_distance"]), crowds[j]) and not step_has_ties(rec):
             return ("step-crowding", head + "survivor %r carries crowding distance %r, the model gives %r" % (
                 list(sv.vector), sv.features["crowding_distance"], crowds[j]))
     return None
@@ -550,9 +577,23 @@ def check_nsga2_run_answer(rr, ans):
     recs = [t.split(":") for t in f[2].split(";")] if f[2] else []
     if len(recs) != len(p.individuals):
         return ("run-recorded", head + "%d designs were recorded, the model run records %d" % (len(p.individuals), len(recs)))
+    # generational loop: the parents handed to generate() in iteration it are exactly the designs recorded as
+    # generation it+1 (a population that is not carried over breaks elitism between consecutive generations)
+    for it, rec in enumerate(rr["gens"]):
+        prev = sorted(rvec(i.vector) for i in p.individuals if i.population_id == it + 1)
+        par = sorted(rvec(q.vector) for q in rec["parents"])
+        if prev != par:
+            return ("run-population", head + "iteration %d bred from %d parents that are not the %d designs recorded as generation %d" % (
+                it, len(par), len(prev), it + 1))
+    tied_run = any(step_has_ties(rec) for rec in rr["gens"])
     for k, (ind, m) in enumerate(zip(p.individuals, recs)):
         if str(ind.population_id) != m[0]:
             return ("run-tag", head + "recorded design #%d carries generation tag %r, the model run tags it %s" % (k, ind.population_id, m[0]))
+        if tied_run and (rvec(ind.vector) != m[1] or ind.features["front_number"] != int(m[2])
+                         or not close(float(ind.features["crowding_distance"]), parse_crowd(m[3]))):
+            # tied objective values somewhere in the run: another (equally valid) tie-break makes the whole-run replay
+            # follow different survivors from there on; the per-iteration replays from the recorded parents decide
+            return ("diverged", None)
         if rvec(ind.vector) != m[1]:
             return ("run-design", head + "recorded design #%d (generation %r) is %r, the model run records %r there" % (
                 k, ind.population_id, list(ind.vector), [float(Fr(t)) for t in m[1].split(",")]))
@@ -568,7 +609,17 @@ def eps_run_request(rr):
     specs = ["7::"] * (N + N * G)
     for i, o in enumerate(rr["init"][:N]):
         specs[i] = spec_of(rr["by"], o)
-    picks_of = {id(o): pk for o, pk in rr["accepts"]}
+    # the model keeps its own list order (delete + append); the implementation may keep another one (e.g. overwrite
+    # the seat): the member that left each step is identified by its design and translated into the model's order
+    key = lambda ind: tuple(float(t) for t in ind.vector)
+    flag = lambda x, m: spec_pareto(x.costs_signed[:-1], m.costs_signed[:-1], x.costs_signed[-1], m.costs_signed[-1])
+    order = list(rr["init"][:N])
+    picks_of = {}
+    for x, before, after in rr["accepts"]:
+        flags = [flag(x, m) for m in order]
+        p1, p2 = picks_for(order, flags, removed_design(before, after, x, key), key)
+        picks_of[id(x)] = (p1, p2)
+        order = model_accept(order, flags, x, p1, p2, key)
     steps = []
     for it, rec in enumerate(gens):
         for j, o in enumerate(rec["offspring"][:N]):
@@ -596,13 +647,17 @@ def check_eps_run_answer(rr, ans):
     recs = [t.split(":") for t in f[2].split(";")] if f[2] else []
     if len(recs) != len(p.individuals):
         return ("eps-recorded", head + "%d designs were recorded, the model run records %d" % (len(p.individuals), len(recs)))
+    if sorted((str(i.population_id), rvec(i.vector)) for i in p.individuals) == sorted((m[0], m[1]) for m in recs):
+        recs = []        # same designs under the same tags; the order inside a generation is not part of the property
     for k, (ind, m) in enumerate(zip(p.individuals, recs)):
         if str(ind.population_id) != m[0] or rvec(ind.vector) != m[1]:
             return ("eps-record", head + "recorded design #%d is %r with generation tag %r, the model run records %r with tag %s" % (
                 k, list(ind.vector), ind.population_id, [float(Fr(t)) for t in m[1].split(",")], m[0]))
     pop = rr["pop"] if rr["pop"] is not None else []
     mpop = f[3].split(";") if f[3] else []
-    if [rvec(i.vector) for i in pop] != mpop and cfg["G"] > 0:
+    if len(pop) != cfg["N"] and cfg["G"] > 0:
+        return ("eps-population-size", head + "the working population ends with %d members, N = %d" % (len(pop), cfg["N"]))
+    if sorted(rvec(i.vector) for i in pop) != sorted(mpop) and cfg["G"] > 0:
         return ("eps-population", head + "the working population ends as %r (size %d), the model's acceptance steps leave %d members: %r" % (
             [list(i.vector) for i in pop], len(pop), len(mpop), [[float(Fr(t)) for t in r.split(",")] for r in mpop]))
     arch = sorted(tuple(float(t) for t in i.costs_signed[:-1]) for i in rr["a"].archive._contents)
@@ -724,6 +779,10 @@ def check_recorded_(ctx, recs):
             ctx.count("steps_floating_point_near_tie_at_the_cut")
             rr["bad"] = "near-tie"
             continue
+        if res is not None and res[0] == "tie-break":
+            ctx.count("steps_tied_values_other_tie_break")
+            rr["bad"] = "tie-break"
+            continue
         if res is not None:
             return res + (rr["cfg"],)
         register_step(ctx, rr, it, pos, ans)
@@ -732,6 +791,9 @@ def check_recorded_(ctx, recs):
         if rr["bad"]:
             continue
         res = check_nsga2_run_answer(rr, ans) if cfg["algo"] == "nsga2" else check_eps_run_answer(rr, ans)
+        if res is not None and res[0] == "diverged":
+            ctx.count("steps_run_replay_diverged_on_ties")
+            continue
         if res is not None:
             return res + (cfg,)
         faults = sum(1 for c in rr["p"].calls if c[2] != "o")
@@ -869,7 +931,7 @@ def run(ctx):
     for line, obs, flags, ans in zip(alines, aobs, aflags, aans):
         ctx.case(("acc", line), nontrivial=(1 in flags or 2 in flags), sample={"accept": line})
         ctx.count("accept_dominates" if 1 in flags else ("accept_rejected" if 2 in flags else "accept_neutral"))
-        if mat(obs) != ans:
+        if sorted(mat(obs).split(";")) != sorted(ans.split(";")):      # the population as a multiset of designs
             ctx.fail("pop-acceptance", "pop_acceptance left population %s, the model (popAccept_cases) gives %s for request %s" % (mat(obs), ans, line),
                      {"op": "accept", "request": line, "observed": obs, "model": ans})
             break
@@ -885,7 +947,7 @@ def stream_accept_in_runs(ctx):
         tie = any(f == 0 and pc == info["offspring_costs"] for f, pc in zip(flags, info["population_costs"]))
         ctx.case(("acc-run", line), nontrivial=(1 in flags or 2 in flags or tie), sample={"accept_in_epsmoea_run": line})
         ctx.count("epsmoea_accept_" + ("dominates" if 1 in flags else "dominated" if 2 in flags else "tied" if tie else "neutral"))
-        if mat(after) != a:
+        if sorted(mat(after).split(";")) != sorted(a.split(";")):
             kind = ("dominates members" if 1 in flags else "is dominated without dominating" if 2 in flags else
                     "neither dominates nor is dominated (costs %r, members %r)" % (info["offspring_costs"], info["population_costs"]))
             ctx.fail("pop-acceptance", "acceptance step inside an EpsMOEA run: the offspring %s; the population afterwards is %s, "
